@@ -125,7 +125,236 @@ func (*Paragraph).Update
     invariant forall k string :: has(p.Values, k) && idxOf(other.Order, k, rangeindex#2 + 1) < 0 ==> ret.Values[k] == p.Values[k]
     decreases len(other.Order) - rangeindex#2
 
+
+// ---------- C10 / C12: checksum and file-list lines; the Debian layout of the typed documents ----------
+
+// "hash size name" (or the two-column "name hash" form of Conffiles); the entry is tagged with the caller's algorithm
+func (*FileHash).unmarshalControl
+  requires c != nil
+  ensures c.Algorithm == algorithm
+  ensures nfields(data) == 3 && result == nil ==> c.Hash == fieldAt(data, 0) && c.Filename == fieldAt(data, 2)
+  ensures nfields(data) == 3 && result == nil && fieldAt(data, 1)[0] != 43 && fieldAt(data, 1)[0] != 45 ==> c.Size == val(fieldAt(data, 1), 0, len(fieldAt(data, 1)))
+  ensures nfields(data) == 3 && alldig(fieldAt(data, 1), 0, len(fieldAt(data, 1))) && val(fieldAt(data, 1), 0, len(fieldAt(data, 1))) <= 9223372036854775807 ==> result == nil
+  ensures nfields(data) == 3 && result == nil ==> c.ByHash == (algorithm == "sha256" ? "SHA256" : (algorithm == "sha512" ? "SHA512" : old(c.ByHash)))
+  ensures nfields(data) == 2 ==> result == nil && c.Filename == fieldAt(data, 0) && c.Hash == fieldAt(data, 1)
+  ensures nfields(data) != 2 && nfields(data) != 3 ==> result != nil
+  modifies *c
+
+// every element type tags the entries with its OWN algorithm
+func (*MD5FileHash).UnmarshalControl
+  requires c != nil
+  ensures c.FileHash.Algorithm == "md5"
+  modifies *c
+func (*SHA1FileHash).UnmarshalControl
+  requires c != nil
+  ensures c.FileHash.Algorithm == "sha1"
+  modifies *c
+func (*SHA256FileHash).UnmarshalControl
+  requires c != nil
+  ensures c.FileHash.Algorithm == "sha256"
+  modifies *c
+func (*SHA512FileHash).UnmarshalControl
+  requires c != nil
+  ensures c.FileHash.Algorithm == "sha512"
+  modifies *c
+
+// a line of a .changes Files field: "md5 size section priority name"
+func (*FileListChangesFileHash).UnmarshalControl
+  requires c != nil
+  ensures c.FileHash.Algorithm == "md5"
+  ensures result == nil ==> nsplit(data, " ") >= 5 && c.FileHash.Hash == splitAt(data, " ", 0) && c.Component == splitAt(data, " ", 2) && c.Priority == splitAt(data, " ", 3) && c.FileHash.Filename == splitAt(data, " ", 4)
+  ensures result == nil && splitAt(data, " ", 1)[0] != 43 && splitAt(data, " ", 1)[0] != 45 ==> c.FileHash.Size == val(splitAt(data, " ", 1), 0, len(splitAt(data, " ", 1)))
+  ensures nsplit(data, " ") < 5 ==> result != nil
+  modifies *c
+
+
+// ---------- C10: accessors derived from the decoded fields ----------
+
+pure func isAllArch(a dependency.Arch) bool { a.CPU == "all" && a.OS == "all" && a.ABI == "all" }
+
+// arch-all detection: some listed architecture is "all"
+func (*DSC).HasArchAll
+  requires d != nil
+  ensures result == (exists i int :: 0 <= i && i < len(d.Architectures) && isAllArch(d.Architectures[i]))
+  loop 1:
+    invariant -1 <= rangeindex && rangeindex < len(d.Architectures) && ranged() == d.Architectures
+    invariant forall i int :: 0 <= i && i <= rangeindex ==> !isAllArch(d.Architectures[i])
+    decreases len(d.Architectures) - rangeindex
+
+// the maintainer first, then the uploaders in order
+func (*DSC).Maintainers
+  requires d != nil
+  ensures len(result) == 1 + len(d.Uploaders) && result[0] == d.Maintainer
+  ensures forall i int :: 0 <= i && i < len(d.Uploaders) ==> result[i+1] == d.Uploaders[i]
+func (*SourceParagraph).Maintainers
+  requires s != nil
+  ensures len(result) == 1 + len(s.Uploaders) && result[0] == s.Maintainer
+  ensures forall i int :: 0 <= i && i < len(s.Uploaders) ==> result[i+1] == s.Uploaders[i]
+
+// every listed file, in order, with its name joined to the directory of the control file and nothing else changed
+func (*DSC).AbsFiles
+  requires d != nil
+  ensures len(result) == len(d.Files)
+  ensures forall i int :: 0 <= i && i < len(d.Files) ==> result[i].FileHash.Filename == pathJoin(dirOf(d.Filename), d.Files[i].FileHash.Filename) && result[i].FileHash.Hash == d.Files[i].FileHash.Hash && result[i].FileHash.Size == d.Files[i].FileHash.Size && result[i].FileHash.Algorithm == d.Files[i].FileHash.Algorithm
+  loop 1:
+    invariant -1 <= rangeindex && rangeindex < len(d.Files) && ranged() == d.Files && len(ret) == rangeindex + 1
+    invariant forall i int :: 0 <= i && i <= rangeindex ==> ret[i].FileHash.Filename == pathJoin(baseDir, d.Files[i].FileHash.Filename) && ret[i].FileHash.Hash == d.Files[i].FileHash.Hash && ret[i].FileHash.Size == d.Files[i].FileHash.Size && ret[i].FileHash.Algorithm == d.Files[i].FileHash.Algorithm
+    invariant baseDir == dirOf(d.Filename)
+    decreases len(d.Files) - rangeindex
+func (*Changes).AbsFiles
+  requires changes != nil
+  ensures len(result) == len(changes.Files)
+  ensures forall i int :: 0 <= i && i < len(changes.Files) ==> result[i].FileHash.Filename == pathJoin(dirOf(changes.Filename), changes.Files[i].FileHash.Filename) && result[i].FileHash.Hash == changes.Files[i].FileHash.Hash && result[i].FileHash.Size == changes.Files[i].FileHash.Size && result[i].Component == changes.Files[i].Component && result[i].Priority == changes.Files[i].Priority
+  loop 1:
+    invariant -1 <= rangeindex && rangeindex < len(changes.Files) && ranged() == changes.Files && len(ret) == rangeindex + 1
+    invariant forall i int :: 0 <= i && i <= rangeindex ==> ret[i].FileHash.Filename == pathJoin(baseDir, changes.Files[i].FileHash.Filename) && ret[i].FileHash.Hash == changes.Files[i].FileHash.Hash && ret[i].FileHash.Size == changes.Files[i].FileHash.Size && ret[i].Component == changes.Files[i].Component && ret[i].Priority == changes.Files[i].Priority
+    invariant baseDir == dirOf(changes.Filename)
+    decreases len(changes.Files) - rangeindex
+
+// the first listed file whose name contains ".debian."
+func (*DSC).DebianSource
+  requires d != nil
+  ensures result1 == nil ==> (exists i int :: 0 <= i && i < len(d.Files) && result0 == d.Files[i].FileHash.Filename && indexStr(result0, ".debian.") >= 0 && (forall j int :: 0 <= j && j < i ==> indexStr(d.Files[j].FileHash.Filename, ".debian.") < 0))
+  ensures result1 != nil ==> (forall j int :: 0 <= j && j < len(d.Files) ==> indexStr(d.Files[j].FileHash.Filename, ".debian.") < 0)
+  loop 1:
+    invariant -1 <= rangeindex && rangeindex < len(d.Files) && ranged() == d.Files
+    invariant forall j int :: 0 <= j && j <= rangeindex ==> indexStr(d.Files[j].FileHash.Filename, ".debian.") < 0
+    decreases len(d.Files) - rangeindex
+
+// the source package of a binary: the Package itself when no Source is given; otherwise the Source without a
+// parenthesised version ("src (1.0-1)" for binNMUs)
+func (*BinaryIndex).SourcePackage
+  requires index != nil
+  ensures result == (index.Source == "" ? index.Package : (indexStr(index.Source, " ") < 0 ? index.Source : index.Source[:indexStr(index.Source, " ")]))
+
+// the SHA-256 list when there is one, else the SHA-512 list, entries in order with their own algorithm tags
+func (*BestChecksums).Checksums
+  requires b != nil
+  ensures len(b.ChecksumsSha256) > 0 ==> len(result) == len(b.ChecksumsSha256) && (forall i int :: 0 <= i && i < len(result) ==> result[i] == b.ChecksumsSha256[i].FileHash)
+  ensures len(b.ChecksumsSha256) == 0 && len(b.ChecksumsSha512) > 0 ==> len(result) == len(b.ChecksumsSha512) && (forall i int :: 0 <= i && i < len(result) ==> result[i] == b.ChecksumsSha512[i].FileHash)
+  ensures len(b.ChecksumsSha256) == 0 && len(b.ChecksumsSha512) == 0 ==> len(result) == 0
+  loop 1:
+    invariant -1 <= rangeindex && rangeindex < len(b.ChecksumsSha256) && ranged() == b.ChecksumsSha256 && len(res) == len(b.ChecksumsSha256) && fresh(res)
+    invariant forall i int :: 0 <= i && i <= rangeindex ==> res[i] == b.ChecksumsSha256[i].FileHash
+    decreases len(b.ChecksumsSha256) - rangeindex
+  loop 2:
+    invariant -1 <= rangeindex && rangeindex < len(b.ChecksumsSha512) && ranged() == b.ChecksumsSha512 && len(res) == len(b.ChecksumsSha512) && fresh(res) && len(b.ChecksumsSha256) == 0
+    invariant forall i int :: 0 <= i && i <= rangeindex ==> res[i] == b.ChecksumsSha512[i].FileHash
+    decreases len(b.ChecksumsSha512) - rangeindex
+
+layout DSC
+  field "Format" scalar
+  field "Source" scalar
+  field "Binary" commalist
+  field "Architecture" archlist
+  field "Version" version
+  field "Origin" scalar
+  field "Maintainer" scalar
+  field "Uploaders" commalist
+  field "Homepage" scalar
+  field "Standards-Version" scalar
+  field "Build-Depends" dep
+  field "Build-Depends-Arch" dep
+  field "Build-Depends-Indep" dep
+  field "Checksums-Sha1" hashes sha1
+  field "Checksums-Sha256" hashes sha256
+  field "Files" hashes md5
+
+layout Changes
+  field "Format" scalar
+  field "Source" scalar
+  field "Binary" spacelist
+  field "Architecture" archlist
+  field "Version" version
+  field "Origin" scalar
+  field "Distribution" scalar
+  field "Urgency" scalar
+  field "Maintainer" scalar
+  field "Changed-By" scalar
+  field "Closes" spacelist
+  field "Changes" scalar
+  field "Checksums-Sha1" hashes sha1
+  field "Checksums-Sha256" hashes sha256
+  field "Files" changesfiles
+
+layout SourceParagraph
+  field "Source" scalar
+  field "Maintainer" scalar
+  field "Uploaders" commalist
+  field "Priority" scalar
+  field "Section" scalar
+  field "Description" scalar
+  field "Build-Depends" dep
+  field "Build-Depends-Indep" dep
+  field "Build-Conflicts" dep
+  field "Build-Conflicts-Indep" dep
+
+layout BinaryParagraph
+  field "Package" scalar
+  field "Architecture" archlist
+  field "Priority" scalar
+  field "Section" scalar
+  field "Essential" bool
+  field "Description" scalar
+  field "Depends" dep
+  field "Recommends" dep
+  field "Suggests" dep
+  field "Enhances" dep
+  field "Pre-Depends" dep
+  field "Breaks" dep
+  field "Conflicts" dep
+  field "Replaces" dep
+  field "Built-Using" dep
+
+layout BinaryIndex
+  field "Package" scalar
+  field "Source" scalar
+  field "Version" version
+  field "Installed-Size" int
+  field "Maintainer" scalar
+  field "Architecture" arch
+  field "Multi-Arch" scalar
+  field "Description" scalar
+  field "Homepage" scalar
+  field "Description-md5" scalar
+  field "Tag" commalist
+  field "Section" scalar
+  field "Priority" scalar
+  field "Filename" scalar
+  field "Size" int
+  field "MD5sum" scalar
+  field "SHA1" scalar
+  field "SHA256" scalar
+  field "Build-Ids" spacelist
+
+layout SourceIndex
+  field "Package" scalar
+  field "Binary" commalist
+  field "Version" version
+  field "Maintainer" scalar
+  field "Uploaders" commalist
+  field "Architecture" archlist
+  field "Standards-Version" scalar
+  field "Format" scalar
+  field "Files" hashes md5
+  field "Vcs-Browser" scalar
+  field "Vcs-Git" scalar
+  field "Vcs-Svn" scalar
+  field "Vcs-Bzr" scalar
+  field "Checksums-Sha1" hashes sha1
+  field "Checksums-Sha256" hashes sha256
+  field "Homepage" scalar
+  field "Directory" scalar
+  field "Priority" scalar
+  field "Section" scalar
+
+layout BestChecksums
+  field "Checksums-Sha256" hashes sha256
+  field "Checksums-Sha512" hashes sha512
+
 property C07: lemma idxOf_prefix, (*ParagraphReader).Next, (*ParagraphReader).All
 property C09: lemma idxOf_prefix, lemma idxOf_found, (*Paragraph).Set, (*Paragraph).Update
+
+property C10: (*DSC).HasArchAll, (*DSC).Maintainers, (*SourceParagraph).Maintainers, (*DSC).AbsFiles, (*Changes).AbsFiles, (*DSC).DebianSource, (*BinaryIndex).SourcePackage, (*BestChecksums).Checksums, (*FileHash).unmarshalControl, (*MD5FileHash).UnmarshalControl, (*SHA1FileHash).UnmarshalControl, (*SHA256FileHash).UnmarshalControl, (*SHA512FileHash).UnmarshalControl, (*FileListChangesFileHash).UnmarshalControl, layout DSC, layout Changes, layout SourceParagraph, layout BinaryParagraph, layout BinaryIndex, layout SourceIndex, layout BestChecksums
 
 @*/
